@@ -174,7 +174,7 @@ fn patterns(tier: Tier) -> Vec<(&'static str, Vec<u64>, Vec<u64>)> {
 
 pub fn run(rep: &mut Report) {
     quiet_panics();
-    rep.rule = "cell = (pair of sequence patterns — 17 fixed ones incl. runs that come back later, plus 4 / 24 seeded pairs over a 2-3 letter alphabet —, l, m); per trial the symbols get fresh random labels, hash_set(A) and hash_set(B) run on one real instance, statistic = fraction of equal signature positions; target = exact order-min-hash collision probability from a memoised enumeration of the uniform ranking of all (element, occurrence) pairs (harness oracle, no sketching code); staged z-test; probabilities 0 and 1 are exact. Distinct = cells; non-trivial: 0 < target < 1".into();
+    rep.rule = "cell = (pair of sequence patterns — 17 fixed ones incl. runs that come back later, plus 4 / 24 seeded pairs over a 2-3 letter alphabet —, l, m); per trial the symbols get fresh random labels, hash_set(A) and hash_set(B) run on one real instance (element hasher FNV in half of the trials, the crate's two pass-through hashers in the others), statistic = fraction of equal signature positions; target = exact order-min-hash collision probability from a memoised enumeration of the uniform ranking of all (element, occurrence) pairs (harness oracle, no sketching code); staged z-test; probabilities 0 and 1 are exact. Distinct = cells; non-trivial: 0 < target < 1".into();
     let t1: u64 = rep.tier.pick(6000, 60_000);
     let mut pats = patterns(rep.tier);
     // seeded pairs over a small alphabet (runs, returns, different multiplicities): shapes nobody listed
@@ -246,14 +246,25 @@ pub fn run(rep: &mut Report) {
                     let labels = fresh_ids(rng, nsym, 0);
                     let a: Vec<u64> = pa.iter().map(|&s| labels[s as usize]).collect();
                     let b: Vec<u64> = pb.iter().map(|&s| labels[s as usize]).collect();
-                    let mut sk = ProbOrdMinHash2::<FnvHasher>::new(m, l);
-                    // sometimes an unrelated call first, and B before A
-                    let (sa, sb) = if rng.random_range(0..2) == 0 {
-                        let sa = sk.hash_set(&a);
-                        (sa, sk.hash_set(&b))
-                    } else {
-                        let sb = sk.hash_set(&b);
-                        (sk.hash_set(&a), sb)
+                    // the element hasher is a type parameter: FNV in half of the trials, the crate's two pass-through hashers
+                    // (labels are their own hashes) in the others
+                    macro_rules! both {
+                        ($h:ty) => {{
+                            let mut sk = ProbOrdMinHash2::<$h>::new(m, l);
+                            // B before A in half of the trials
+                            if rng.random_range(0..2) == 0 {
+                                let sa = sk.hash_set(&a);
+                                (sa, sk.hash_set(&b))
+                            } else {
+                                let sb = sk.hash_set(&b);
+                                (sk.hash_set(&a), sb)
+                            }
+                        }};
+                    }
+                    let (sa, sb) = match rng.random_range(0..4) {
+                        0 => both!(probminhash::nohasher::NoHashHasher),
+                        1 => both!(probminhash::superminhasher::NoHashHasher),
+                        _ => both!(FnvHasher),
                     };
                     let eq = sa.iter().zip(sb.iter()).filter(|(x, y)| x == y).count();
                     out[0] = eq as f64 / m as f64;
